@@ -33,7 +33,8 @@ CFG = dict(
           "(quick 200, thorough 2000 histories; 35% add 250-300 distinct ranges with removal bursts before/at/after the "
           "256th slot and re-adds, 20% up to 600 random operations, 5% fill the list with copies and zero them, 40% short "
           "histories over 1-6 ranges); prefix lengths 0-32 uniformly, host bits set, nested and neighbouring ranges, "
-          "duplicates, absent removals, 8 kinds of invalid argument; probes = first/last address and outside neighbours "
+          "duplicates, absent removals, 8 kinds of invalid argument; 30% of the histories overwrite the argument slices (cidr.IP, cidr.Mask, probe) after "
+          "every call; Contains(nil); probes = first/last address and outside neighbours "
           "of live and removed ranges in 4- and 16-byte form plus non-IPv4 slices; non-trivial = distinct case lines; "
           "every observation of every line is judged (see driver.observations / driver.probes)"),
     trusted_base=[HARNESS_TB, EXTRACT_TB,
@@ -45,7 +46,8 @@ CFG = dict(
                  "nil *net.IPNet arguments (a nil-pointer panic in Mask.Size) are outside the statement"],
 )
 CFG["manifest"] = dict(
-    text=("Proof: Coq theorems C11_membership / C11_both_forms / C11_invalid_rejected / C11_valid_accepted / C11_refinement hold for every "
+    text=("Proof: the model returns None where Go panics (index out of range, write to a nil map, short slice); C11_no_panic: no call of any history "
+          "panics and none would in the state reached. Coq theorems C11_membership / C11_both_forms / C11_invalid_rejected / C11_valid_accepted / C11_refinement hold for every "
           "history of any length and every probe slice: an abstraction function maps the concrete state (256-slot list with zeroed "
           "slots, or the 32 per-length sets) to the plain live set, every operation including the one-way migration commutes with "
           "it, and the scan answers membership in it; the mask table is checked entry by entry against 2^32-2^(32-n) "
